@@ -174,6 +174,21 @@ func buildVersion(v, perm int) *migProfile {
 			}
 		}
 	}
+	// a pure package move: same type string, different import path
+	if v != v0 {
+		errors.RegisterTypeMigration("errsim/elsewhere", "gen.MovedLeaf", gen.MovedLeaf{})
+		if k := errors.GetTypeKey(gen.MovedLeaf{}); string(k) != "errsim/elsewhere/gen.MovedLeaf" {
+			mp.problems = append(mp.problems, Violation{Prop: "C17", Oracle: "key-of-moved-type", Culprit: "RegisterTypeMigration",
+				Expected: "errsim/elsewhere/gen.MovedLeaf", Observed: string(k), Where: versionNames[v]})
+		}
+		if p := obs.S(func() string {
+			errors.RegisterTypeMigration("errsim/elsewhere2", "gen.MovedLeaf", gen.MovedLeaf{})
+			return ""
+		}); p == "" {
+			mp.problems = append(mp.problems, Violation{Prop: "C17", Oracle: "duplicate-target-rejected", Culprit: "RegisterTypeMigration",
+				Expected: "panic", Observed: "accepted", Where: versionNames[v] + " moved type"})
+		}
+	}
 	name := versionNames[v]
 	if len(chain) > 1 {
 		name += "[" + orderDesc + "]"
@@ -365,6 +380,33 @@ func (p c17) Run(t *tape.Tape, tier Tier) *Result {
 			}
 		}
 		checkWire(d.ReData, "leaving "+d.Proc.Prof.Name)
+		// where the type is opaque (v0, v2n) the node is forwarded verbatim,
+		// original type name included
+		if v == v0 || v == v2n {
+			var in, out *world.WireNode
+			if e1, err := world.ParseWire(d.Msg.Data); err == nil {
+				world.WalkWire(e1, false, func(w *world.WireNode) {
+					if w.Path == migPath {
+						in = w
+					}
+				})
+			}
+			if e2, err := world.ParseWire(d.ReData); err == nil {
+				world.WalkWire(e2, false, func(w *world.WireNode) {
+					if w.Path == migPath {
+						out = w
+					}
+				})
+			}
+			if in != nil && out != nil {
+				a, _ := in.Details().Marshal()
+				b, _ := out.Details().Marshal()
+				if in.Message() != out.Message() || string(a) != string(b) {
+					res.add(Violation{Prop: "C17", Oracle: "opaque-forwarded-verbatim", Culprit: "encoder", Config: "at=" + versionNames[v],
+						Expected: fmt.Sprintf("%q %s", in.Message(), in.Details().OriginalTypeName), Observed: fmt.Sprintf("%q %s", out.Message(), out.Details().OriginalTypeName), Where: where})
+				}
+			}
+		}
 		// Is(received, locally built equivalent)
 		if v != v0 {
 			gen.MigBuildName = versionName[v]
